@@ -48,6 +48,9 @@ func rulesC07(c *Ctx) {
 	ruleHandledContract(c, "C07.HANDLED")
 	c.Floor("C07.FIRSTERR", 8)
 	ruleTxFn(c, "C07.TXFN")
+	ruleIndexBucketError(c, "C07.INDEXBUCKETERR")
+	ruleCallbackNotRun(c, "C07.ACTIONRUN")
+	ruleSameBucket(c, "C07.SAMEBUCKET")
 	c.Floor("C07.TXFN", 8)
 	rulePostCommit(c, "C07.POSTCOMMIT")
 	c.Floor("C07.POSTCOMMIT", 3)
